@@ -26,6 +26,7 @@ mod c19;
 mod c20;
 mod alloc;
 mod asciix;
+mod fitsx;
 
 #[global_allocator]
 static GLOBAL: alloc::Counting = alloc::Counting;
